@@ -186,11 +186,57 @@ package cputensor
 //@   ensures[C03] o != nil && sameShape(o, t1)
 //@   ensures[C03] forallJ(J, imp(inb(o, J), el(o, J) == app2(sbf, el(t1, J), el(t2, J))))
 
+// fibre(t, d, J): the ghost tensor of t's rank with size dim(t, d) along d and 1 elsewhere, whose element K is t's element
+// at ins(J, d, K[d]) (definition). STAT-EXT (paper lemma): a whole-tensor statistic and the element count depend only on
+// shape and elements. extT(f): the reducer f does not distinguish tensors of equal shape and elements.
+//@ axiom fibreDef: forallT(t, forallI(d, forallJ(J, imp(0 <= d && d < rank(t), rank(fibre(t, d, J)) == rank(t) && forall(k, 0, rank(t), dim(fibre(t, d, J), k) == ite(k == d, dim(t, d), 1))
+//@                 && forallJ(K, imp(inb(fibre(t, d, J), K), el(fibre(t, d, J), K) == el(t, ins(J, d, K[d]))))))))
+//@ predicate sameTensor(u T, v T) := sameShape(u, v) && forallJ(K, imp(inb(u, K), el(u, K) == el(v, K)))
+//@ axiom statExt: forallT(u, forallT(v, imp(sameTensor(u, v), tsum(u) == tsum(v) && tmax(u) == tmax(v) && tmin(u) == tmin(v) && tvar(u) == tvar(v) && nelems(u) == nelems(v))))
+//@ predicate extT(f Fn) := forallT(u, forallT(v, imp(sameTensor(u, v), appT(f, u) == appT(f, v))))
+
+//@ define srcPos(k, d) := ite(k < d, k, k + 1)
 //@ func CPUTensor.reduceDimUsingFunc
-//@   requires 0 <= dim && dim < rank(t)
-//@   assumed L2 element generator with reduced dimension (closure state, slice of windows); bounded stand-in: rac TestReducers
+//@   requires published(t) && 0 <= dim && dim < rank(t) && trf != nil && extT(trf)
+//@   uses dimsLink, filledWF, filledEl, wfExt
+//@   have genFloat(elemGen) && redShape(o, t, dim)
+//@   have forallJ(J, imp(inb(o, J), el(o, J) == fval(genAt(elemGen, mix(zeroIdx(), J, 0, rank(t) - 1)))))
+//@   have forallJ(J, imp(inb(o, J), sameTensor(fibre(t, dim, mix(zeroIdx(), J, 0, rank(t) - 1)), fibre(t, dim, J)))) @uses fibreDef
 //@   returns fresh
 //@   ensures o != nil && redShape(o, t, dim) && forallJ(J, imp(inb(o, J), el(o, J) == appT(trf, fibre(t, dim, J))))
+
+//@ func CPUTensor.linearElemGeneratorWithReducedDim
+//@   requires published(t) && 0 <= dim && dim < rank(t) && trf != nil && extT(trf)
+//@   uses dimsLink
+//@   returns fresh
+//@   modifies genIdx(res)
+//@   ensures res != nil && genRank(res) == rank(t) - 1 && forall(k, 0, rank(t) - 1, genShape(res)[k] == dim(t, srcPos(k, dim))) && genIdx(res) == zeroIdx()
+//@   ensures forallJ(Q, genAt(res, Q) == mkF(appT(trf, fibre(t, dim, Q))))
+//@   loop 0 invariant 0 <= i && i <= len(state) && len(state) == rank(t) && forall(k, 0, i, state[k].From == 0 && state[k].To == 1)
+//@   loop 0 decreases len(state) - i
+//@ func CPUTensor.linearElemGeneratorWithReducedDim#0
+//@   implements cputensor.initializerFunc
+//@   uses dimsLink, fibreDef
+//@   modifies state
+//@   yields genRank(self) == rank(t) - 1 && forall(k, 0, rank(t) - 1, genShape(self)[k] == dim(t, srcPos(k, dim))) && forallJ(Q, genAt(self, Q) == mkF(appT(trf, fibre(t, dim, Q))))
+//@   invariant t != nil && published(t) && 0 <= dim && dim < rank(t) && trf != nil && extT(trf) && len(state) == rank(t)
+//@   invariant state[dim].From == 0 && state[dim].To == dim(t, dim)
+//@   invariant forall(k, 0, rank(t), imp(k != dim, 0 <= state[k].From && state[k].To == state[k].From + 1 && state[k].To <= dim(t, k)))
+//@   invariant imp(genIdx(self)[0-1] == 0, forall(k, 0, rank(t) - 1, state[srcPos(k, dim)].From == genIdx(self)[k]))
+//@   loop 0 invariant 0-1 <= i && i < rank(t) && len(state) == rank(t) && state[dim].From == 0 && state[dim].To == dim(t, dim)
+//@   loop 0 invariant forall(k, 0, rank(t), imp(k > i && k != dim, old(state[k].From) == dim(t, k) - 1 && state[k].From == 0 && state[k].To == 1))
+//@   loop 0 invariant forall(k, 0, rank(t), imp(k <= i && k != dim, state[k].From == old(state[k].From) && state[k].To == old(state[k].To)))
+//@   loop 0 decreases i + 1
+//@   have sameTensor(row, fibre(t, dim, old(genIdx(self))))
+//@   have forall(j, 0, rank(t) - 1, imp(srcPos(j, dim) > i, old(genIdx(self))[j] == dim(t, srcPos(j, dim)) - 1 && state[srcPos(j, dim)].From == 0))
+//@   have forall(j, 0, rank(t) - 1, imp(srcPos(j, dim) < i, state[srcPos(j, dim)].From == old(genIdx(self))[j]))
+//@   have forall(j, 0, rank(t) - 1, imp(srcPos(j, dim) == i, state[i].From == old(genIdx(self))[j] + 1 && old(genIdx(self))[j] < dim(t, i) - 1))
+//@   have forall(j, 0-1, rank(t) - 1, imp(srcPos(j, dim) >= i, allMax(old(genIdx(self)), genShape(self), j, rank(t) - 1)))
+//@   have imp(i >= 0, i != dim && 0 <= ite(i < dim, i, i - 1) && ite(i < dim, i, i - 1) < rank(t) - 1 && srcPos(ite(i < dim, i, i - 1), dim) == i
+//@        && old(genIdx(self))[ite(i < dim, i, i - 1)] != genShape(self)[ite(i < dim, i, i - 1)] - 1)
+//@   have forall(j, 0-1, rank(t) - 1, imp(srcPos(j, dim) < i, !allMax(old(genIdx(self)), genShape(self), j, rank(t) - 1)))
+//@   have forall(j, 0, rank(t) - 1, ite(allMax(old(genIdx(self)), genShape(self), j, rank(t) - 1), ite(old(genIdx(self))[j] >= genShape(self)[j] - 1, 0, old(genIdx(self))[j] + 1), old(genIdx(self))[j]) == state[srcPos(j, dim)].From)
+//@   have imp(i >= 0, !allMax(old(genIdx(self)), genShape(self), 0-1, rank(t) - 1))
 
 // Whole-tensor statistics are *defined* as left folds over the data tree in row-major order (foldD / foldK), from the
 // neutral start value; the code's recursion trav is proved to compute exactly that fold.
